@@ -52,6 +52,18 @@ def render_derive(inp):
         "rx_cb_brace_tail": '#[regex("[a-c]+", %s)]' % ("|lex| { lex }.slice()" if shape == "field1" and not generic_form else "|_| { 1u32 } + 1" if shape == "field1" else "|_| { true } && true"),
         "rx_cb_bracket_tail": '#[regex("[a-c]+", %s)]' % ("|lex| [lex.slice()][0]" if shape == "field1" and not generic_form else "|_| [1u32, 2][0]" if shape == "field1" else "|_| [true, false][0]"),
         "rx_cb_bracket_only": '#[regex("[a-c]+", %s)]' % ("|lex| lex.slice()" if shape == "field1" and not generic_form else "|_| 1u32" if shape == "field1" else "|_| [true, true].len() == 2"),
+        # the field type of these is FIELD_TY[attr]; unit variants return bool / ()
+        "rx_cb_tuple_only": '#[regex("[a-c]+", %s)]' % ("|lex| (lex.slice(), 1u8)" if shape == "field1" and not generic_form else "|_| (1u32, 1u8)" if shape == "field1" else "|_| (true)"),
+        "rx_cb_unit_parens": '#[regex("[a-c]+", %s)]' % ("|_| (7u32)" if shape == "field1" else "|_| ()"),
+        "rx_cb_match_only": '#[regex("[a-c]+", %s)]' % ("|lex| match lex.slice().len() { 1 => 1u32, _ => 2u32 }" if shape == "field1" else "|lex| match lex.slice().len() { 1 => true, _ => false }"),
+        "rx_cb_match_tail": '#[regex("[a-c]+", %s)]' % ("|lex| match lex.slice().len() { 1 => 1u32, _ => 2u32 } + 10" if shape == "field1" else "|lex| match lex.slice().len() { 1 => true, _ => false } || true"),
+        "rx_cb_if_only": '#[regex("[a-c]+", %s)]' % ("|lex| if lex.slice().len() == 1 { 1u32 } else { 2u32 }" if shape == "field1" else "|lex| if lex.slice().len() == 1 { true } else { false }"),
+        "rx_cb_if_tail": '#[regex("[a-c]+", %s)]' % ("|lex| if lex.slice().len() == 1 { 1u32 } else { 2u32 } * 3" if shape == "field1" else "|lex| if lex.slice().len() == 1 { true } else { false } == true"),
+        "rx_cb_match_method": '#[regex("[a-c]+", %s)]' % ("|lex| match lex.slice().len() { 1 => 1u32, _ => 2u32 }.pow(2)" if shape == "field1" else "|lex| match lex.slice().len() { 1 => 1u32, _ => 2u32 }.is_power_of_two()"),
+        "rx_cb_unsafe_only": '#[regex("[a-c]+", %s)]' % ("|_| unsafe { 1u32 }" if shape == "field1" else "|_| unsafe { true }"),
+        "rx_cb_neg": '#[regex("[a-c]+", %s)]' % ("|lex| -(lex.slice().len() as i64)" if shape == "field1" else "|lex| !lex.slice().is_empty()"),
+        "rx_cb_ref_tuple": '#[regex("[a-c]+", %s)]' % ("|_| &(1u8, 2u8)" if shape == "field1" else "|_| *&true"),
+        "rx_cb_closure_call": '#[regex("[a-c]+", %s)]' % ("|lex| (|n: usize| n as u32 + 1)(lex.slice().len())" if shape == "field1" else "|lex| (|n: usize| n > 0)(lex.slice().len())"),
         "rx_nonutf8": '#[regex(b"\\xff+")]',
         "tok_b80_icase": '#[token(b"\\x80", ignore(case))]',
         "tok_b7f80_icase": '#[token(b"k\\x7f\\x80\\x81", ignore(case))]',
@@ -98,6 +110,8 @@ def render_derive(inp):
         "skip_lit_tail": ['#[logos(skip " " priority = 3)]'], "skip_lit_tail_lit": ['#[logos(skip " " "x")]'],
         "sub_unbalanced": ['#[logos(subpattern ub = "a)|(b")]'], "sub_flag_cut": ['#[logos(subpattern ub = "a)(?i")]'],
         "dup_error_cb": ["#[logos(error(MyErr, callback = |_| MyErr, callback = |_| MyErr))]"],
+        "error_cb_tuple": ["#[logos(error((usize, usize), callback = |lex| (lex.span().start, lex.span().end)))]"],
+        "error_cb_match_tail": ["#[logos(error(usize, callback = |lex| match lex.span().start { 0 => 1usize, _ => 2usize } + 10))]"],
         "gen_lt": [], "gen_two_lt_attr": ["#[logos(lifetime = 'a)]"], "gen_lt_none": ["#[logos(lifetime = none)]"],
         "gen_type_ok": ["#[logos(type T = u32)]"], "gen_type_lt_order": ["#[logos(type T = &'a str, lifetime = 'a)]"],
         "gen_two_lt_no_attr": [], "gen_lt_undeclared": ["#[logos(lifetime = 'z)]"], "gen_lt_dup": ["#[logos(lifetime = 'a, lifetime = 'a)]"],
@@ -107,8 +121,12 @@ def render_derive(inp):
            "gen_type_ok": ("<T>", "T:|_| 1u32", None), "gen_type_lt_order": ("<'a, T>", "T:|lex| lex.slice()", "&'a u8"),
            "gen_two_lt_no_attr": ("<'a, 'b>", "&'a str", "&'b u8"), "gen_lt_undeclared": ("<'a>", "&'a str", None), "gen_lt_dup": ("<'a>", "&'a str", None),
            "gen_type_missing": ("<T>", "T:|_| 1u32", None), "gen_type_undeclared": ("", None, None), "gen_type_dup": ("<T>", "T:|_| 1u32", None)}
+    FIELD_TY = {"rx_cb_tuple_only": "(%s, u8)" % slice_ty, "rx_cb_unit_parens": "u32", "rx_cb_match_only": "u32", "rx_cb_match_tail": "u32", "rx_cb_if_only": "u32",
+                "rx_cb_if_tail": "u32", "rx_cb_match_method": "u32", "rx_cb_unsafe_only": "u32", "rx_cb_neg": "i64", "rx_cb_ref_tuple": "&'static (u8, u8)", "rx_cb_closure_call": "u32"}
+    if attr in FIELD_TY:
+        slice_ty = FIELD_TY[attr]
     generics = []
-    if shape == "field1" and not generic_form:
+    if shape == "field1" and not generic_form and "'s" in slice_ty:
         generics.append("'s")
     if enum == "const_generic":
         generics.append("const N: usize")
